@@ -81,13 +81,28 @@ Definition spec_failures (i : input) (obs_l : observation) : list (N * N) :=
 Definition dom (i : input) : bool :=
   let '(th, _, ops) := i in match th with [] => in_domain ops | _ => false end.
 
+(* The clauses are evaluated on the longest prefix of the history that lies inside the domain (one message outside
+   the reading must not switch the clauses off for the messages before it). *)
+Fixpoint dom_prefix (ops : list op) : list op :=
+  match ops with
+  | [] => []
+  | o :: r => if op_in_domain o then o :: dom_prefix r else []
+  end.
+Definition spec_failures_prefix (i : input) (obs_l : observation) : list (N * N) :=
+  let '(th, _, ops) := i in
+  match th with
+  | [] => let p := dom_prefix ops in clauses_from 0 [] obs0 p (firstn (length p) obs_l)
+  | _ => []
+  end.
+
 Fixpoint report (base : N) (cases : list (input * observation)) : list (N * N * N) :=
   match cases with
   | [] => []
   | (i, o) :: r =>
       (match first_diff 0 (model_run i) o with Some p => [(base, 0, p)] | None => [] end) ++
-      (if dom i then map (fun e => (base, fst e, snd e)) (spec_failures i o) else []) ++
+      map (fun e => (base, fst e, snd e)) (spec_failures_prefix i o) ++
       report (N.succ base) r
   end.
 
-Definition replay (c : input * observation) := (model_run (fst c), dom (fst c), spec_failures (fst c) (snd c)).
+Definition replay (c : input * observation) :=
+  (model_run (fst c), dom (fst c), spec_failures_prefix (fst c) (snd c)).
